@@ -430,7 +430,7 @@ def run_check(tier):
     case = st.fixed_dictionaries({"size": sizes, "cseed": st.integers(0, 1 << 20), "password": st.text(pwchars, min_size=1, max_size=200),
                                   "pwmode": st.sampled_from(["p", "k", "K"]), "naming": st.sampled_from(["o", "suffix"]),
                                   "name": st.text(st.characters(min_codepoint=97, max_codepoint=122), min_size=6, max_size=24).map(lambda s: s + ".dat")})
-    nex = 10 if tier == "quick" else 120
+    nex = 16 if tier == "quick" else 150
 
     @hseed(seed())
     @settings(max_examples=nex, database=None, deadline=None, suppress_health_check=list(HealthCheck), report_multiple_bugs=False)
